@@ -32,6 +32,10 @@ Pre == CASE InitKind = "empty"  -> <<>>
          [] InitKind = "regen"  -> << [op |-> "build", g |-> 1], [op |-> "compile", v |-> 1, m |-> 1],
                                       [op |-> "get", m |-> 1, h |-> 1], [op |-> "drop_rt"],
                                       [op |-> "build", g |-> 2] >>
+         \* a constant added to the runtime between two compilations (hot reload after the host extended its library)
+         [] InitKind = "late"   -> << [op |-> "build", g |-> 1], [op |-> "compile", v |-> 1, m |-> 1],
+                                      [op |-> "get", m |-> 1, h |-> 1], [op |-> "add_const"],
+                                      [op |-> "compile", v |-> 2, m |-> 2] >>
          [] InitKind = "clo"    -> << [op |-> "build", g |-> 1], [op |-> "compile", v |-> 1, m |-> 1],
                                       [op |-> "get", m |-> 1, h |-> 1], [op |-> "into_func", h |-> 1, c |-> 1] >>
          [] InitKind = "same"   -> << [op |-> "build", g |-> 1], [op |-> "compile", v |-> 1, m |-> 1],
@@ -54,6 +58,7 @@ MCNext ==
   /\ Len(hist) < Len(Pre) + N
   /\ \/ BuildRuntime /\ Step([op |-> "build", g |-> Len(gens) + 1])
      \/ DropRuntime  /\ Step([op |-> "drop_rt"])
+     \/ AddConst     /\ Step([op |-> "add_const"])
      \/ \E v \in Versions : Compile(v) /\ Step([op |-> "compile", v |-> v, m |-> Len(mods) + 1])
      \/ \E m \in Mods :
           \/ DropPkg(m) /\ Step([op |-> "drop_pkg", m |-> m])
